@@ -107,22 +107,32 @@ type c15Result struct {
 	breakStatus string
 }
 
+// c15RefCache holds the undebugged observation per program; only the
+// breakpoint-edit scenario (thousands of runs of one program) switches it on.
+var c15RefCache map[int]c15Obs
+
 func c15Run(c c15Cfg) *c15Result {
 	r := &c15Result{}
 	src := c15Progs[c.prog].src
-	// reference: plain run
-	ref := newEnv(1)
-	rres, rerr := func() (interface{}, error) {
-		ast, err := parser.ParseWithRuntime("v", src, ref.erp)
-		if err != nil {
-			return nil, err
+	// reference: plain run (deterministic; computed once per program and execution)
+	want, cached := c15RefCache[c.prog]
+	if !cached {
+		ref := newEnv(1)
+		rres, rerr := func() (interface{}, error) {
+			ast, err := parser.ParseWithRuntime("v", src, ref.erp)
+			if err != nil {
+				return nil, err
+			}
+			if err := ast.Runtime.Validate(); err != nil {
+				return nil, err
+			}
+			return ast.Runtime.Eval(ref.vs, make(map[string]interface{}), ref.erp.NewThreadID())
+		}()
+		want = c15Observe(ref, rres, rerr)
+		if c15RefCache != nil {
+			c15RefCache[c.prog] = want
 		}
-		if err := ast.Runtime.Validate(); err != nil {
-			return nil, err
-		}
-		return ast.Runtime.Eval(ref.vs, make(map[string]interface{}), ref.erp.NewThreadID())
-	}()
-	want := c15Observe(ref, rres, rerr)
+	}
 
 	en := newEnv(1)
 	vc := &visitCounter{ECALDebugger: interpreter.NewECALDebugger(en.vs), visits: map[uint64]int{}}
@@ -514,13 +524,15 @@ func init() {
 		}
 	}
 	register(&Scenario{Prop: "C15", Name: "bulk-breakpoint-edits", Quick: 0, Thor: 0, FreeQuick: -1, FreeThor: -1, Horizon: 50000000,
-		Desc: "12-line program: every history of <= 2 (thorough 3) breakpoint commands over {break, rmbreak, disablebreak} x lines {1, 2, 10, 12} + {rmbreak v, break vv:1, rmbreak vv}; the table reported by status must equal the reference map and the thread must suspend (break-on-error off, resume only) exactly at the lines the reference says are active; differential oracle against the undebugged run",
+		Desc: "12-line program: every history of <= 2 (thorough 3) breakpoint commands over {break, rmbreak, disablebreak} x lines {1, 2, 10, 12} + {rmbreak v, break vv:1, rmbreak vv}, and every history of <= 4 (thorough 5) commands over the reduced alphabet {break, rmbreak, disablebreak} x lines {2, 10} + {rmbreak v}; the table reported by status must equal the reference map and the thread must suspend (break-on-error off, resume only) exactly at the lines the reference says are active; differential oracle against the undebugged run",
 		Make: func() (func(), func(e *vsched.Exec) (string, *vsched.Violation)) {
 			var probs []string
 			cfgs := 0
 			body := func() {
 				probs = nil
 				cfgs = 0
+				c15RefCache = map[int]c15Obs{}
+				defer func() { c15RefCache = nil }()
 				trace := c15LineTrace(prog)
 				depth := 2
 				if tierThorough() {
@@ -549,6 +561,25 @@ func init() {
 					}
 				}
 				rec([]string{})
+				// longer histories over a reduced alphabet (two lines, whole-source removal):
+				// a derived count or cache that drifts needs repeated commands on one line
+				reduced := []string{"break v:2", "rmbreak v:2", "disablebreak v:2", "break v:10", "rmbreak v:10", "disablebreak v:10", "rmbreak v"}
+				full := c15EditCmds
+				c15EditCmds = reduced
+				lo := depth
+				depth += 2
+				var rec2 func(h []string)
+				rec2 = func(h []string) {
+					if len(h) > lo {
+						rec(h) // rec checks h and, below the depth, its extensions
+						return
+					}
+					for _, c := range reduced {
+						rec2(append(append([]string{}, h...), c))
+					}
+				}
+				rec2([]string{})
+				c15EditCmds = full
 				vsched.Logf("configurations=%d", cfgs)
 			}
 			chk := c15Check(func() []string { return probs })
